@@ -615,11 +615,11 @@ func ruleCapturePairing(r *Run) {
 		r.missing("(*path).addRule / (*path).search / method.vars / variable.next")
 		return
 	}
-	isAddVar := func(in ssa.Instruction) bool {
+	rawAddVar := func(in ssa.Instruction) bool {
 		c, ok := in.(ssa.CallInstruction)
 		return ok && calleeName(c) == "(*larking.io/larking.path).addVariable"
 	}
-	isVarsAppend := func(in ssa.Instruction) bool {
+	rawVarsAppend := func(in ssa.Instruction) bool {
 		c, ok := in.(*ssa.Call)
 		if !ok {
 			return false
@@ -627,8 +627,87 @@ func ruleCapturePairing(r *Run) {
 		b, ok := c.Call.Value.(*ssa.Builtin)
 		return ok && b.Name() == "append" && types.Identical(c.Type(), varsF.Type())
 	}
+	// a call of a local closure or module helper counts as what its body does: a body with both (a paired
+	// "descend" step) is judged on its own and is neutral for the caller
+	calleeOf := func(in ssa.Instruction) *ssa.Function {
+		c, ok := in.(ssa.CallInstruction)
+		if !ok || c.Common().IsInvoke() {
+			return nil
+		}
+		if g := c.Common().StaticCallee(); g != nil && p.InModule(g) && g != ar && calleeName(c) != "(*larking.io/larking.path).addVariable" {
+			return g
+		}
+		if mc, ok := c.Common().Value.(*ssa.MakeClosure); ok {
+			return mc.Fn.(*ssa.Function)
+		}
+		for _, o := range p.origins(c.Common().Value, originOpts{local: true}) {
+			if mc, ok := o.(*ssa.MakeClosure); ok {
+				return mc.Fn.(*ssa.Function)
+			}
+		}
+		return nil
+	}
+	bodyHas := func(g *ssa.Function) (addv, app bool) {
+		eachInstr(g, func(x ssa.Instruction) {
+			if rawAddVar(x) {
+				addv = true
+			}
+			if rawVarsAppend(x) {
+				app = true
+			}
+		})
+		return
+	}
+	var pairedUnits []*ssa.Function
+	isAddVar := func(in ssa.Instruction) bool {
+		if rawAddVar(in) {
+			return true
+		}
+		if g := calleeOf(in); g != nil {
+			a, b := bodyHas(g)
+			return a && !b
+		}
+		return false
+	}
+	isVarsAppend := func(in ssa.Instruction) bool {
+		if rawVarsAppend(in) {
+			return true
+		}
+		if g := calleeOf(in); g != nil {
+			a, b := bodyHas(g)
+			return b && !a
+		}
+		return false
+	}
+	eachInstr(ar, func(in ssa.Instruction) {
+		if g := calleeOf(in); g != nil {
+			if a, b := bodyHas(g); a && b {
+				pairedUnits = append(pairedUnits, g)
+			}
+		}
+	})
+	// a paired unit: on every path through it exactly one of each
+	for _, g := range pairedUnits {
+		key := shortFunc(g)
+		w1, _ := (pathQuery{fn: g, target: isReturn, barrier: rawAddVar}).find()
+		w2, _ := (pathQuery{fn: g, target: isReturn, barrier: rawVarsAppend}).find()
+		bad := w1 != nil || w2 != nil
+		for _, a := range instrsOf(g, rawAddVar) {
+			if w, _ := (pathQuery{fn: g, start: a, target: rawAddVar}).find(); w != nil {
+				bad = true
+			}
+		}
+		for _, a := range instrsOf(g, rawVarsAppend) {
+			if w, _ := (pathQuery{fn: g, start: a, target: rawVarsAppend}).find(); w != nil {
+				bad = true
+			}
+		}
+		r.check(!bad, key+"/one-field-path-per-variable-node", g.Pos(), "the step adds one variable node and one field-path entry on every path", "a step of addRule that adds variable nodes and field-path entries does not add exactly one of each on every path: positions of captures and field paths no longer agree")
+	}
 	// addRule
-	{
+	if len(pairedUnits) > 0 && len(instrsOf(ar, isAddVar)) == 0 && len(instrsOf(ar, isVarsAppend)) == 0 {
+		r.ok(shortFunc(ar)+"/one-field-path-per-variable-node", ar.Pos(), "variable nodes and field-path entries are only added by paired steps (%d)", len(pairedUnits))
+	} else {
 		key := shortFunc(ar)
 		var adds, apps []ssa.Instruction
 		eachInstr(ar, func(in ssa.Instruction) {
